@@ -20,7 +20,7 @@ CHECKS = {
     },
     "C03": {
         "modules": ["PGV.Props.C03"], "audits": ["PGV/Audit/C03.lean"],
-        "streams": ["walk-zero", "flat", "iface-probe"], "thorough_seeds": 4,
+        "streams": ["walk-zero", "flat", "iface-probe", "walk-deep"], "thorough_seeds": 4,
         "assumptions": WALK_ASSUME,
         "explanation": "theorems: required writes its clause iff the value is empty (zero / length 0), supplied values get no clause, every table-dispatched rule is skipped on zero values, missing Map/Url entries violate required; streams compare whole error strings over every kind, zero and non-zero",
     },
@@ -153,7 +153,7 @@ CHECKS["C08"] = {
 }
 CHECKS["C12"] = {
     "modules": ["PGV.Props.C12"], "audits": ["PGV/Audit/C12.lean"],
-    "streams": ["history", "walk-rm"], "thorough_seeds": 2,
+    "streams": ["history", "walk-rm", "walk-gfn-seq"], "thorough_seeds": 2,
     "assumptions": WALK_ASSUME + ["pools are modelled adversarially: a call may receive any object a previous call returned"],
     "explanation": "C12_history_independent: under every pool schedule every call of every history returns its fresh-process result (pool invariant: recycled validators have no rule map, recycled builders are empty; every call re-establishes it); together with C08 for the cache. Stream history: sequential heterogeneous calls, each compared with the model's fresh-state result; error strings and ValidNamesSplit tokens handed out earlier are re-read at the end",
 }
